@@ -156,3 +156,35 @@ package mocker
 //@   ensures first_matching_condition_serves: exists j int :: (0 <= j && j < len(w.matches) && matcher_matches(w.matches[j], args1) && none_matches(w, args1, j) && result_from == w.matches[j])
 //@     | || (j == -1 && none_matches(w, args1, len(w.matches)) && result_from == w.defaultReturns && w.defaultReturns != nil)
 //@   panics_only_if neither_match_nor_default: none_matches(w, args1, len(w.matches)) && w.defaultReturns == nil
+
+// ---- C19: debug logging is transparent ----------------------------------------------------------------------------------
+//@ extern func (github.com/tencent/goom.Mocker).String
+//@   pure
+
+// with debug off the mock's callback is used as it is
+//@ func interceptDebugInfo
+//@   props C19
+//@   assigns nothing
+//@   ensures identity_when_logging_is_off: !(logger.ConsoleLevel >= logger.DebugLevel) ==> result0 == imp && result1 == pFunc
+//@   ensures callback_kept_when_proxy_given: pFunc != nil ==> result0 == imp
+//@   ensures nothing_to_wrap: imp == nil && pFunc == nil ==> result0 == nil && result1 == nil
+//@   ensures wrapper_has_callback_type: logger.ConsoleLevel >= logger.DebugLevel && pFunc == nil && imp != nil ==> result0 != nil && result1 == nil
+
+// the wrapper installed for proxy functions (When/Return stubs): forwards, then logs
+//@ func interceptDebugInfo$1
+//@   props C19
+//@   safety logging
+//@   assigns everything
+//@   funcvalue_may_panic
+//@   requires captured: originPFunc != nil && mocker != nil
+//@   ensures forwards_exactly: result0 == call_result(old(originPFunc), params)
+//@   panics_only_if only_if_the_stub_panics: call_panics(originPFunc, params)
+
+// the wrapper installed for Apply callbacks: CallSlice for variadic callbacks, Call otherwise, then logs
+//@ func interceptDebugInfo$2
+//@   props C19
+//@   safety logging
+//@   assigns everything
+//@   requires captured: impType != nil && mocker != nil
+//@   ensures forwards_exactly: result0 == ite(rt_variadic(old(impType)), rv_callslice(value_of(old(originImp)), params), rv_call(value_of(old(originImp)), params))
+//@   panics_only_if only_if_the_callback_panics: rv_call_panics(value_of(originImp), params) || rt_kind(impType) != reflect.Func
